@@ -348,6 +348,9 @@ fn charstring(g: &CGlyph, cff2: bool, subr_index: usize) -> (Vec<u8>, Option<Vec
 
 pub struct CFont {
     pub name: String,
+    /// head.unitsPerEm (1000, or 1024: power-of-two sizes then have exact scales, device coordinates fall
+    /// exactly on pixel and half-pixel boundaries, the `fract == 0` cases of the hint map)
+    pub upem: u16,
     pub cff2: bool,
     pub private: Private,
     pub glyphs: Vec<CGlyph>,
@@ -440,7 +443,7 @@ fn cff2_table(f: &CFont) -> Vec<u8> {
 
 pub fn build_font(f: &CFont) -> Vec<u8> {
     let n = f.glyphs.len() as u16 + 1;
-    let head = Head { units_per_em: 1000, magic_number: 0x5F0F3CF5, y_min: -300, y_max: 1000, x_max: 1000, ..Default::default() };
+    let head = Head { units_per_em: f.upem, magic_number: 0x5F0F3CF5, y_min: -300, y_max: 1000, x_max: 1000, ..Default::default() };
     let maxp = Maxp { num_glyphs: n, ..Default::default() };
     let hhea = Hhea { number_of_h_metrics: n, ascender: 800.into(), descender: (-200).into(), ..Default::default() };
     let hmtx = Hmtx::new((0..n).map(|i| LongMetric::new(500 + (i % 11) * 7, 0)).collect(), vec![]);
@@ -741,7 +744,42 @@ pub fn fonts(cfg: &Config) -> Vec<CFont> {
                 if cff2 && !(thorough || pi % 3 == 1 || ci == 0 && pi < 2) {
                     continue;
                 }
-                out.push(CFont { name: format!("{}{}-{}", if cff2 { "cff2-" } else { "cff-" }, p.name, ci), cff2, private: p.clone(), glyphs: chunk.to_vec() });
+                out.push(CFont { name: format!("{}{}-{}", if cff2 { "cff2-" } else { "cff-" }, p.name, ci), upem: 1000, cff2, private: p.clone(), glyphs: chunk.to_vec() });
+            }
+        }
+    }
+    out
+}
+
+/// 1024 units per em: at 4, 8, 16, 32, 64 ppem the scale is exact; stems and zones on multiples of 32/64/256
+/// units put device coordinates exactly on pixel / half-pixel boundaries.
+pub fn exact_fonts(cfg: &Config) -> Vec<CFont> {
+    let mut out = vec![];
+    let blues = nums(&[-16, 0, 512, 528, 768, 784]);
+    let other = nums(&[-256, -240]);
+    let configs = vec![
+        Private { name: "exact-plain".into(), ..Default::default() },
+        Private { name: "exact-blues".into(), blues: blues.clone(), other_blues: other.clone(), ..Default::default() },
+        Private { name: "exact-blues-scale.0625".into(), blues: blues.clone(), other_blues: other.clone(), blue_scale: Some("0.0625"), blue_fuzz: Some(0), ..Default::default() },
+        Private { name: "exact-lang1".into(), language_group: Some(1), ..Default::default() },
+    ];
+    for p in configs {
+        let mut glyphs = vec![];
+        for &w in &[32.0, 64.0, 96.0, 128.0, 192.0, 256.0] {
+            for &g in &[16.0, 32.0, 64.0, 96.0, 128.0, 256.0] {
+                for y0 in [0.0, -256.0, 32.0, 16.0] {
+                    let k = ((900.0 / (w + g)) as usize).clamp(2, 7);
+                    glyphs.push(ladder(format!("exact ladder w={w} g={g} y0={y0} k={k}"), fx(y0), &vec![fx(w); k], &[fx(g)]));
+                }
+            }
+        }
+        glyphs.extend(blue_glyphs(&zones_of(&p), p.blue_fuzz.unwrap_or(1), 7));
+        for (ci, chunk) in glyphs.chunks(200).enumerate() {
+            for cff2 in [false, true] {
+                if cff2 && !(cfg.thorough() || ci == 0) {
+                    continue;
+                }
+                out.push(CFont { name: format!("{}{}-{}", if cff2 { "cff2-" } else { "cff-" }, p.name, ci), upem: 1024, cff2, private: p.clone(), glyphs: chunk.to_vec() });
             }
         }
     }
@@ -761,7 +799,9 @@ pub fn run(cfg: &Config, s: &mut Session) {
         ppems.extend([1, 2, 3, 41, 42, 43, 45, 50, 57, 72, 96, 128, 500, 1000, 2000, 2001]);
     }
     let only = std::env::var("C03_CFF_ONLY").ok();
-    for f in fonts(cfg) {
+    let mut all = fonts(cfg);
+    all.extend(exact_fonts(cfg));
+    for f in all {
         if let Some(o) = &only {
             if !f.name.contains(o.as_str()) {
                 continue;
